@@ -306,7 +306,10 @@ def check(prop, tier, repo, seed):
         "assumptions": sorted(assumptions) + [cfg["level_note"]],
         "wall_s": round(wall, 2), "violations": len(violations),
     }
-    json.dump(ev, open(os.path.join(EVID, prop + ".json"), "w"), indent=1)
+    # evidence describes /repo; a run against another tree (seeded change, selftest) leaves it alone
+    evdir = EVID if os.path.abspath(repo) == "/repo" else os.path.join(BUILD, "evidence_other")
+    os.makedirs(evdir, exist_ok=True)
+    json.dump(ev, open(os.path.join(evdir, prop + ".json"), "w"), indent=1)
     return rc
 
 
